@@ -4,6 +4,8 @@ import (
 	"fmt"
 	"go/types"
 	"strings"
+
+	"golang.org/x/tools/go/ssa"
 )
 
 // Stub library: assumed contracts on dependencies. Every stub used by a run is listed
@@ -42,7 +44,7 @@ func init() {
 		mt := cx.sig.Results().At(0).Type().Underlying().(*types.Map)
 		r := cx.newSet(mt, func(k Term) Term { return "false" })
 		if len(cx.args) > 0 {
-			cx.setBulk(mt, r, cx.args[0], true)
+			cx.setBulkN(mt, r, cx.args[0], true, 0)
 		}
 		return []Term{r}
 	}
@@ -105,6 +107,29 @@ func init() {
 	}
 	stubs["fmt.Errorf"] = nonNilErr
 	stubs["errors.New"] = nonNilErr
+	stubs["go.uber.org/multierr.Append"] = func(cx *callCtx) []Term {
+		vc := cx.fr.eng.vc
+		vc.decl("fn:multierr_append", "(declare-fun multierr_append (Iface Iface) Iface)")
+		vc.decl("ax:multierr_append", "(assert (forall ((a Iface) (b Iface)) (! (and (= (= (multierr_append a b) nil_iface) (and (= a nil_iface) (= b nil_iface))) (=> (= a nil_iface) (= (multierr_append a b) b)) (=> (= b nil_iface) (= (multierr_append a b) a))) :pattern ((multierr_append a b)))))")
+		return []Term{fmt.Sprintf("(multierr_append %s %s)", cx.args[0], cx.args[1])}
+	}
+	stubs["github.com/awslabs/operatorpkg/option.Resolve"] = func(cx *callCtx) []Term {
+		// applies caller-supplied option functions to a fresh zero value; assumed to touch only that value
+		e := cx.fr.eng
+		loc := e.newObj(cx.st)
+		et := cx.sig.Results().At(0).Type().Underlying().(*types.Pointer).Elem()
+		if st, ok := et.Underlying().(*types.Struct); ok {
+			for i := 0; i < st.NumFields(); i++ {
+				ft := st.Field(i).Type()
+				if !isStructLike(ft) {
+					v := e.vc.fresh("opt."+st.Field(i).Name(), e.vc.sortOf(ft))
+					e.wf(cx.st, v, ft)
+					e.storeField(cx.st, loc, et, i, v)
+				}
+			}
+		}
+		return []Term{loc}
+	}
 	stubs["math/rand.Intn"] = func(cx *callCtx) []Term {
 		vc := cx.fr.eng.vc
 		cx.fr.safety(cx.st, "call.rand.Intn", fmt.Sprintf("(> %s 0)", cx.args[0]), cx.instr, "rand.Intn argument must be positive")
@@ -120,6 +145,7 @@ func declAtoi(vc *VC) {
 	vc.decl("fn:itoa", "(declare-fun itoa (Int) Str)")
 	vc.decl("c:atoi_err", "(declare-const atoi_err Iface)")
 	vc.decl("ax:atoi_err", "(assert (not (= atoi_err nil_iface)))")
+	vc.decl("ax:atoirange", "(assert (forall ((s Str)) (! (and (<= (- 9223372036854775808) (atoi_val s)) (<= (atoi_val s) 9223372036854775807)) :pattern ((atoi_val s)))))")
 	vc.decl("ax:itoa", "(assert (forall ((i Int)) (! (and (atoi_ok (itoa i)) (= (atoi_val (itoa i)) i)) :pattern ((itoa i)))))")
 }
 
@@ -174,11 +200,12 @@ func (cx *callCtx) newSet(mt *types.Map, pred func(k Term) Term) Term {
 	vc := e.vc
 	ks := vc.sortOf(mt.Key())
 	loc := e.newObj(cx.st)
-	d := vc.fresh("setdom", fmt.Sprintf("(Array %s Bool)", ks))
 	p := pred("k")
+	var d Term
 	if p == "false" {
-		vc.assume(eq(d, e.emptySet(ks)))
+		d = e.emptySet(ks)
 	} else {
+		d = vc.fresh("setdom", fmt.Sprintf("(Array %s Bool)", ks))
 		vc.assumeIf(cx.st.pc, fmt.Sprintf("(forall ((k %s)) (! (= (select %s k) %s) :pattern ((select %s k))))", ks, d, p, d))
 	}
 	dc := e.mapDomComp(mt)
@@ -186,23 +213,57 @@ func (cx *callCtx) newSet(mt *types.Map, pred func(k Term) Term) Term {
 	return loc
 }
 
+// staticSliceLen: the argument is a slice of a freshly allocated fixed-size array (variadic call
+// with explicit arguments): its length is known statically.
+func (cx *callCtx) staticSliceLen(i int) int {
+	if i >= len(cx.argVs) {
+		return -1
+	}
+	sl, ok := cx.argVs[i].(*ssa.Slice)
+	if !ok || sl.Low != nil || sl.High != nil {
+		return -1
+	}
+	al, ok := sl.X.(*ssa.Alloc)
+	if !ok {
+		return -1
+	}
+	at, ok := al.Type().Underlying().(*types.Pointer).Elem().Underlying().(*types.Array)
+	if !ok {
+		return -1
+	}
+	return int(at.Len())
+}
+
 // setBulk inserts (or deletes) all elements of slice items into set m.
 func (cx *callCtx) setBulk(mt *types.Map, m Term, items Term, insert bool) {
+	cx.setBulkN(mt, m, items, insert, 1)
+}
+
+func (cx *callCtx) setBulkN(mt *types.Map, m Term, items Term, insert bool, argIdx int) {
 	e := cx.fr.eng
 	vc := e.vc
 	ks := vc.sortOf(mt.Key())
 	dc := e.mapDomComp(mt)
-	old := sel(e.get(cx.st, dc), m)
-	oldN := vc.name("dom", fmt.Sprintf("(Array %s Bool)", ks), old)
 	box := e.get(cx.st, e.boxComp(mt.Key()))
-	nw := vc.fresh("setdom", fmt.Sprintf("(Array %s Bool)", ks))
 	elem := func(j Term) Term {
 		return sel(box, fmt.Sprintf("(idx (s_arr %s) (+ (s_off %s) %s))", items, items, j))
 	}
-	// membership via an index witness function (no nested existential)
-	w := sym(fmt.Sprintf("bulkw!%d", e.qctr()))
-	vc.decls = append(vc.decls, fmt.Sprintf("(declare-fun %s (%s) Int)", w, ks))
-	inItems := fmt.Sprintf("(and (<= 0 (%s k)) (< (%s k) (s_len %s)) (= %s k))", w, w, items, elem(fmt.Sprintf("(%s k)", w)))
+	if n := cx.staticSliceLen(argIdx); n >= 0 && n <= 8 {
+		// explicit arguments: one map update / delete per element
+		for j := 0; j < n; j++ {
+			k := vc.name("item", ks, elem(fmt.Sprint(j)))
+			if insert {
+				cx.fr.mapUpdate(cx.st, m, mt, k, vc.zero(mt.Elem()), cx.instr)
+			} else {
+				cx.fr.mapDelete(cx.st, m, mt, k, cx.instr)
+			}
+		}
+		return
+	}
+	old := sel(e.get(cx.st, dc), m)
+	oldN := vc.name("dom", fmt.Sprintf("(Array %s Bool)", ks), old)
+	nw := vc.fresh("setdom", fmt.Sprintf("(Array %s Bool)", ks))
+	inItems := fmt.Sprintf("(exists ((j Int)) (and (<= 0 j) (< j (s_len %s)) (= %s k)))", items, elem("j"))
 	var def Term
 	if insert {
 		def = fmt.Sprintf("(or (select %s k) %s)", oldN, inItems)
@@ -210,28 +271,19 @@ func (cx *callCtx) setBulk(mt *types.Map, m Term, items Term, insert bool) {
 		def = fmt.Sprintf("(and (select %s k) (not %s))", oldN, inItems)
 	}
 	vc.assumeIf(cx.st.pc, fmt.Sprintf("(forall ((k %s)) (! (= (select %s k) %s) :pattern ((select %s k))))", ks, nw, def, nw))
-	// every item is witnessed
-	vc.assumeIf(cx.st.pc, fmt.Sprintf("(forall ((j Int)) (! (=> (and (<= 0 j) (< j (s_len %s))) (and (<= 0 (%s %s)) (< (%s %s) (s_len %s)) (= %s %s))) :pattern (%s)))",
-		items, w, elem("j"), w, elem("j"), items, elem(fmt.Sprintf("(%s %s)", w, elem("j"))), elem("j"), elem("j")))
-	card := e.cardFn(ks)
 	e.card(ks, nw)
 	e.card(ks, oldN)
-	x0 := elem("0")
+	card := e.cardFn(ks)
 	if insert {
 		vc.assumeIf(cx.st.pc, fmt.Sprintf("(=> (= (s_len %s) 0) (= %s %s))", items, nw, oldN))
-		vc.assumeIf(cx.st.pc, fmt.Sprintf("(=> (= (s_len %s) 1) (= (%s %s) (ite (select %s %s) (%s %s) (+ (%s %s) 1))))", items, card, nw, oldN, x0, card, oldN, card, oldN))
 		vc.assumeIf(cx.st.pc, fmt.Sprintf("(>= (%s %s) (%s %s))", card, nw, card, oldN))
+		cx.fr.safety(cx.st, "mapwrite", fmt.Sprintf("(or (= (s_len %s) 0) (not (= %s nil)))", items, m), cx.instr, "insert into nil set")
 	} else {
 		vc.assumeIf(cx.st.pc, fmt.Sprintf("(=> (= (s_len %s) 0) (= %s %s))", items, nw, oldN))
-		vc.assumeIf(cx.st.pc, fmt.Sprintf("(=> (= (s_len %s) 1) (= (%s %s) (ite (select %s %s) (- (%s %s) 1) (%s %s))))", items, card, nw, oldN, x0, card, oldN, card, oldN))
 		vc.assumeIf(cx.st.pc, fmt.Sprintf("(<= (%s %s) (%s %s))", card, nw, card, oldN))
-		// deleting during a range over the same set: only visited keys
 		if !cx.spec {
 			cx.fr.rangeMutationCheckBulk(cx.st, m, mt, items, box, cx.instr)
 		}
-	}
-	if insert {
-		cx.fr.safety(cx.st, "mapwrite", fmt.Sprintf("(or (= (s_len %s) 0) (not (= %s nil)))", items, m), cx.instr, "insert into nil set")
 	}
 	cx.st.heap[dc] = vc.name("h", e.compSort[dc], sto(e.get(cx.st, dc), m, nw))
 }
